@@ -125,7 +125,7 @@ def main():
         flag = r["status"] in ("caught", "silent")
         if not flag:
             bad += 1
-        print("%-12s %-40s %5.1fs %s" % (r["status"], r["name"], r["wall"], "" if flag else json.dumps(r.get("keys") or r.get("detail"))[:1500]))
+        print("%-12s %-40s %5.1fs %s" % (r["status"], r["name"], r["wall"], "" if flag else json.dumps(r.get("keys") or (r.get("detail") or "")[-1200:])))
     if a.json:
         json.dump(results, open(a.json, "w"), indent=1)
     sys.exit(1 if bad else 0)
